@@ -476,7 +476,8 @@ class ODVariable:
 
     def encode_phys(self, value: Union[int, bool, float, str, bytes]) -> int:
         if self.data_type in INTEGER_TYPES:
-            value /= self.factor
+            if self.factor != 1:
+                value /= self.factor
             value = int(round(value))
         return value
 
